@@ -383,10 +383,13 @@ pub fn run(ctx: &mut Ctx) {
         let sub = prng.next();
         let Some((mut h, mut s)) = r9::sign(&ks, &id, &msg, &r) else { continue };
         if i % 2 == 0 {
-            // every other sample: a signature whose h + N still fits in 256 bits
+            // every other sample: a signature whose h + N still fits in 256 bits (alias forgery) and whose h with the top
+            // bit flipped is >= N (so that the required class bitflip_h_ge_N is certain to occur): h in [N - 2^255, 2^256 - N),
+            // 10.7 % of all h; 200 tries leave a 1e-10 chance of not finding one
             let two256: BigUint = BigUint::one() << 256;
+            let two255: BigUint = BigUint::one() << 255;
             let mut tries = 0;
-            while &h + &pr.n >= two256 && tries < 20 {
+            while (&h + &pr.n >= two256 || &h + &two255 < pr.n) && tries < 200 {
                 tries += 1;
                 r = rand_scalar(&mut prng, &(&pr.n - 1u32));
                 if let Some((h2, s2)) = r9::sign(&ks, &id, &msg, &r) {
